@@ -16,13 +16,13 @@ void harness_init() {}
 size_t harness_max_len() { return 1200; }
 
 enum Dev { D_HONEST, D_FOREIGN_ID, D_STALE_ID, D_OTHER_HASH, D_OTHER_LEVEL, D_STATUS, D_ERROR_PDU, D_ERROR_PDU_STATUS0, D_GARBAGE, D_TRUNCATED, D_TRAILING, D_BAD_MAC, D_OTHER_MAC_ALG, D_OTHER_KEY, D_NO_MAC, D_NO_HEADER,
-           D_OTHER_VERSION, D_INCONSISTENT, D_NO_CHAINS, D_HTTP_ERROR, D_CONN_REFUSED, D_CLOSE_MID_REPLY, D_NO_REPLY, D_EXTEND_RESPONSE, D_COUNT };
+           D_OTHER_VERSION, D_INCONSISTENT, D_NO_CHAINS, D_HTTP_ERROR, D_CONN_REFUSED, D_CLOSE_MID_REPLY, D_NO_REPLY, D_EXTEND_RESPONSE, D_NO_REQUEST_ID, D_COUNT };
 static const char *kDevName[] = {"honest", "foreign-id", "stale-id", "other-hash", "other-level", "status", "error-pdu", "error-pdu-status0", "garbage", "truncated", "trailing-bytes", "bad-mac", "other-mac-alg", "other-key", "no-mac", "no-header",
-                                 "other-pdu-version", "inconsistent-chains", "no-chains", "http-error", "connection-refused", "close-mid-reply", "no-reply", "extend-response"};
+                                 "other-pdu-version", "inconsistent-chains", "no-chains", "http-error", "connection-refused", "close-mid-reply", "no-reply", "extend-response", "no-request-id"};
 enum Api { A_SIGN_AGGREGATED, A_CREATE_SIGNATURE, A_SIGN, A_ASYNC, A_BLOCK_SIGNER, A_COUNT };
 static const char *kApiName[] = {"signAggregated", "createSignature", "Signature_sign", "async", "block-signer"};
 
-struct Scenario { int transport; /* 0 tcp 1 http */ int api; int version; int macAlg; std::string login; Bytes key; Bytes doc; uint64_t level; int dev; uint64_t status; };
+struct Scenario { bool readd = false; /* async: the handle is first answered honestly, then the SAME handle is added again and the deviation applies to the second exchange */ int transport; /* 0 tcp 1 http */ int api; int version; int macAlg; std::string login; Bytes key; Bytes doc; uint64_t level; int dev; uint64_t status; };
 
 void harness_case(Dec &d, Case &c) {
     resetSim(); Scenario sc; Chooser ch{[&](uint32_t n) { return d.pick(n); }, [&]() { return d.byte(); }};
@@ -32,6 +32,7 @@ void harness_case(Dec &d, Case &c) {
     unsigned lm = d.pick(8); sc.level = lm < 4 ? 0 : (lm < 6 ? d.pick(8) : (lm == 6 ? d.pick(200) : 0)); if (sc.api != A_SIGN_AGGREGATED && sc.api != A_ASYNC && sc.api != A_BLOCK_SIGNER) sc.level = 0;
     sc.dev = d.pick(3) == 0 ? D_HONEST : (int)(d.raw(2) % D_COUNT); static const uint64_t sts[] = {0x0101, 0x0102, 0x0103, 0x0104, 0x0105, 0x0106, 0x0107, 0x0200, 0x0300, 0x0301, 1, 0xffff, 0x100000000ULL, 0x0100}; sc.status = sts[d.pick(14)];
     if (sc.transport == 0 && sc.dev == D_HTTP_ERROR) sc.dev = D_STATUS; if (sc.transport == 1 && (sc.dev == D_CONN_REFUSED || sc.dev == D_CLOSE_MID_REPLY || sc.dev == D_TRAILING)) sc.dev = D_BAD_MAC;
+    { static const int perReply[] = {D_HONEST, D_FOREIGN_ID, D_STALE_ID, D_OTHER_HASH, D_STATUS, D_ERROR_PDU, D_BAD_MAC, D_OTHER_KEY, D_NO_MAC, D_INCONSISTENT, D_NO_CHAINS, D_NO_REQUEST_ID}; bool ok = false; for (int x : perReply) if (x == sc.dev) ok = true; sc.readd = sc.api == A_ASYNC && ok && d.pick(3) == 0; }
     bool trustedAlg = algTrusted(docAlg); // deprecated (SHA-1) or unregistered algorithms are untrusted; merely uncomputable ones (SHA-3, SM3) are not
 
     // ---- the reference aggregator -----------------------------------------------------------------------------------
@@ -64,6 +65,7 @@ void harness_case(Dec &d, Case &c) {
         if (sc.dev == D_ERROR_PDU || sc.dev == D_ERROR_PDU_STATUS0) { Tlv e = errorPayload(ver, true, sc.dev == D_ERROR_PDU ? sc.status : 0, "error"); pdu = ver == 1 ? sealV1(0x200, h, e, key, macAlg, true, d.flag()) : sealV2(0x221, h, {e}, key, macAlg, true, d.flag()); }
         else if (sc.dev == D_EXTEND_RESPONSE) { Tlv e = extRespPayload(ver, rid, true, 0, "", out.hasCal ? &out.cal : nullptr, false, 0); pdu = ver == 1 ? sealV1(0x300, h, e, key, macAlg) : sealV2(0x321, h, {e}, key, macAlg); }
         else { Tlv p = aggrRespPayload(ver, rid, hasStatus || status, status, status ? "failure" : "", out.chains.empty() ? nullptr : &out, sc.level); if (out.chains.empty()) p = aggrRespPayload(ver, rid, true, 0, "", nullptr, 0);
+            if (sc.dev == D_NO_REQUEST_ID) { for (size_t i = 0; i < p.kids.size(); i++) if (p.kids[i].tag == 0x01) { p.kids.erase(p.kids.begin() + (long)i); break; } } // otherwise honest, but bound to no request
             pdu = ver == 1 ? sealV1(0x200, h, p, key, macAlg, withHeader, withMac) : sealV2(0x221, h, {p}, key, macAlg, withHeader, withMac); }
         if (sc.dev == D_BAD_MAC && pdu.size() > 4) { pdu[pdu.size() - 1 - d.pick(8)] ^= (uint8_t)(1u << d.pick(8)); }
         if (sc.dev == D_GARBAGE) { pdu.clear(); unsigned n = 2 + d.pick(40); for (unsigned i = 0; i < n; i++) pdu.push_back(d.byte()); }
@@ -93,9 +95,12 @@ void harness_case(Dec &d, Case &c) {
         KSI_AggregationReq *rq = nullptr; KSI_AggregationReq_new(ctx, &rq); KSI_AggregationReq_setRequestHash(rq, KSI_DataHash_ref(dh)); if (sc.level) { KSI_Integer *li = nullptr; KSI_Integer_new(ctx, sc.level, &li); KSI_AggregationReq_setRequestLevel(rq, li); }
         KSI_AsyncHandle *hnd = nullptr; if (res == KSI_OK) res = KSI_AsyncAggregationHandle_new(ctx, rq, &hnd); else KSI_AggregationReq_free(rq);
         if (res == KSI_OK) { res = KSI_AsyncService_addRequest(as, hnd); if (res != KSI_OK) KSI_AsyncHandle_free(hnd); }
+        if (res == KSI_OK && sc.readd && trustedAlg) { int realDev = sc.dev; sc.dev = D_HONEST; KSI_AsyncHandle *out = nullptr; size_t waiting = 0; for (int round = 0; round < 200 && !out; round++) { KSI_AsyncService_run(as, &out, &waiting); sim::net().now += 1; } sc.dev = realDev; int st0 = -1; if (out) KSI_AsyncHandle_getState(out, &st0);
+            if (out != hnd || st0 != KSI_ASYNC_STATE_RESPONSE_RECEIVED) { if (out && out != hnd) KSI_AsyncHandle_free(out); c.cls("readd:warm-up-not-answered"); sc.readd = false; res = out == hnd ? KSI_OK : KSI_NETWORK_ERROR; if (out == hnd) { res = KSI_AsyncService_addRequest(as, hnd); if (res != KSI_OK) KSI_AsyncHandle_free(hnd); } }
+            else { KSI_Signature *s0 = nullptr; KSI_AsyncHandle_getSignature(out, &s0); KSI_Signature_free(s0); res = KSI_AsyncService_addRequest(as, hnd); if (res != KSI_OK) { KSI_AsyncHandle_free(hnd); } else c.cls("readd:same-handle-added-again"); } }
         if (res == KSI_OK) { KSI_AsyncHandle *out = nullptr; size_t waiting = 0; res = KSI_UNKNOWN_ERROR;
             for (int round = 0; round < 200 && !out; round++) { int r2 = KSI_AsyncService_run(as, &out, &waiting); if (r2 != KSI_OK && !out) { /* service-level error: keep running */ } sim::net().now += 1; if (!out && waiting == 0 && round > 3) break; }
-            if (out) { KSI_AsyncHandle_getState(out, &asyncState); if (asyncState == KSI_ASYNC_STATE_RESPONSE_RECEIVED) { res = KSI_AsyncHandle_getSignature(out, &sig); } else { asyncErr = true; int e = 0; KSI_AsyncHandle_getError(out, &e); res = e ? e : KSI_UNKNOWN_ERROR; } KSI_AsyncHandle_free(out); }
+            if (out) { KSI_AsyncHandle_getState(out, &asyncState); if (asyncState == KSI_ASYNC_STATE_RESPONSE_RECEIVED) { res = KSI_AsyncHandle_getSignature(out, &sig); } else { asyncErr = true; int e = 0; KSI_AsyncHandle_getError(out, &e); res = e ? e : KSI_UNKNOWN_ERROR; KSI_Signature *s1 = nullptr; int rs = KSI_AsyncHandle_getSignature(out, &s1); if (rs == KSI_OK && s1) { res = KSI_OK; sig = s1; asyncErr = false; c.cls("async:signature-from-a-failed-handle"); } else KSI_Signature_free(s1); } KSI_AsyncHandle_free(out); }
             else { res = KSI_NETWORK_ERROR; stats().count("async:request-not-returned-within-200-rounds"); if (honestEquivalent || sc.dev != D_NO_REPLY) { /* lost requests are C13's subject */ } } }
         KSI_AsyncService_free(as);
     }
